@@ -240,7 +240,7 @@ func (e *c04Env) do(op string, r *vfRng) {
 			e.t.Fatal(err)
 		}
 		idx := s.raft.AppliedIndex()
-		sink, err := s.snapshotStore.Create(1, idx, s.raft.CurrentTerm(), cf.Configuration(), cf.Index(), nil)
+		sink, err := s.snapshotStore.Create(1, idx, s.raft.CurrentTerm(), cf.Configuration(), 1 /* the bootstrap configuration entry; GetConfiguration's future does not carry the index */, nil)
 		if err != nil {
 			e.t.Fatalf("install: create sink: %v", err)
 		}
@@ -377,6 +377,10 @@ func TestVerifC04(t *testing.T) {
 		}
 		allOps = append(allOps, e.ops)
 		allImpl = append(allImpl, e.impl)
+	}
+	if h := os.Getenv("VERIF_C04_HISTORY"); h != "" {
+		run(strings.Split(h, ","))
+		return
 	}
 	// the history of the design pass: full; writes; snapshot not persisted; load; write; snapshot;
 	// write; snapshot; restart
